@@ -1039,3 +1039,235 @@ Proof.
     cbn; intros H; inversion H; auto.
   left. apply Nat.ltb_ge in A. split; [lia|reflexivity].
 Qed.
+
+(* ------------------------------------------------------------------ *)
+(** * expect: the whole reassembly, for every split into read chunks *)
+
+Lemma sock_read_short s n s' bs r :
+  sock_read s n = (s', bs, r) -> r <> SContinue -> length bs < n.
+Proof.
+  unfold sock_read. intros H; inversion H; subst; clear H.
+  destruct (Nat.min n (length (inq s)) =? n) eqn:E; [intros C; contradiction|].
+  intros _. apply Nat.eqb_neq in E. rewrite firstn_length. lia.
+Qed.
+
+(** one read while the header is still incomplete afterwards (no EOF, no error) *)
+Lemma expect_readable_valid_continue x s x' s' :
+  expect_readable x s = (x', s', Continue) ->
+  ieof s = false -> ierr s = false ->
+  length (xbuf x) < stage_len (xstage x) ->
+  length (xbuf x') < window_unix ->
+  exists bs,
+    xbuf x' = xbuf x ++ bs /\ bs ++ inq s' = inq s /\ xint x' = xint x /\
+    ieof s' = false /\ ierr s' = false /\ outq s' = outq s /\
+    ((inq s' = [] /\ xev x' = set_r (xev x) false /\ xstage x' = xstage x /\
+      length (xbuf x') < stage_len (xstage x))
+     \/
+     (xev x' = xev x /\ stage_rank (xstage x') < stage_rank (xstage x) /\
+      length (xbuf x') < stage_len (xstage x'))).
+Proof.
+  unfold expect_readable. intros H NE NR LB LU.
+  destruct (sock_read s (stage_len (xstage x) - length (xbuf x))) as [[s1 bs] res] eqn:R.
+  pose proof (sock_read_short _ _ _ _ _ R) as SH.
+  apply sock_read_spec in R. destruct R as (C & LE & O & _ & _ & IE & IR & RC & RN & RCl & RE).
+  rewrite NE in IE. rewrite NR in IR. pose proof windows_ordered as WO.
+  exists bs.
+  destruct res.
+  - (* the window was filled *)
+    specialize (RC eq_refl).
+    assert (LN : length (xbuf x ++ bs) = stage_len (xstage x)) by (rewrite app_length; lia).
+    assert (Z : (0 <? length bs) = true) by (apply Nat.ltb_lt; lia).
+    rewrite Z in H. cbn [xbuf xstage xint xev xaddr] in H.
+    destruct (parse_v2 (xbuf x ++ bs)) as [| |rest h]; [|inversion H|inversion H].
+    destruct (xstage x) eqn:ST; cbn [stage_len] in LN.
+    + rewrite LN, Nat.eqb_refl in H.
+      assert (W : (window_v4 =? window_unix) = false) by reflexivity. rewrite W in H.
+      inversion H; subst; clear H. cbn [xbuf xint xev xstage stage_rank stage_len].
+      repeat split; auto; try (right; repeat split; auto; rewrite LN; unfold window_v4, window_v6, window_unix; lia).
+    + rewrite LN, Nat.eqb_refl in H.
+      assert (W : (window_v6 =? window_unix) = false) by reflexivity. rewrite W in H.
+      inversion H; subst; clear H. cbn [xbuf xint xev xstage stage_rank stage_len].
+      repeat split; auto; try (right; repeat split; auto; rewrite LN; unfold window_v4, window_v6, window_unix; lia).
+    + rewrite LN, Nat.eqb_refl in H. inversion H.
+  - specialize (RCl eq_refl). congruence.
+  - (* the socket ran dry *)
+    assert (SHORT : length bs < stage_len (xstage x) - length (xbuf x)) by (apply SH; discriminate).
+    assert (LN : length (xbuf x ++ bs) < stage_len (xstage x)) by (rewrite app_length; lia).
+    assert (NU : (length (xbuf x ++ bs) =? window_unix) = false).
+    { apply Nat.eqb_neq. pose proof (stage_len_le (xstage x)). lia. }
+    assert (EMP : inq s1 = []) by (apply RN; discriminate).
+    set (x1 := if 0 <? length bs then _ else _) in H.
+    assert (X1 : xbuf x1 = xbuf x ++ bs /\ xstage x1 = xstage x /\ xint x1 = xint x /\ xaddr x1 = xaddr x /\
+                 set_r (xev x1) false = set_r (xev x) false).
+    { unfold x1. destruct (0 <? length bs); cbn [xbuf xstage xint xev xaddr]; rewrite ?NU; repeat split. }
+    destruct X1 as (B1 & S1 & I1 & A1 & E1).
+    cbn [xbuf xstage xint xev xaddr] in H. rewrite B1, S1, I1, A1, E1 in H.
+    destruct (parse_v2 (xbuf x ++ bs)) as [| |rest h]; [|inversion H|inversion H].
+    destruct (xstage x) eqn:ST; cbn [stage_len] in LN.
+    + assert (W : (length (xbuf x ++ bs) =? window_v4) = false) by (apply Nat.eqb_neq; lia).
+      rewrite W in H. inversion H; subst; clear H. cbn [xbuf xint xev xstage stage_len].
+      repeat split; auto; try (left; repeat split; auto).
+    + assert (W : (length (xbuf x ++ bs) =? window_v6) = false) by (apply Nat.eqb_neq; lia).
+      rewrite W in H. inversion H; subst; clear H. cbn [xbuf xint xev xstage stage_len].
+      repeat split; auto; try (left; repeat split; auto).
+    + rewrite NU in H. inversion H; subst; clear H. cbn [xbuf xint xev xstage stage_len].
+      repeat split; auto; try (left; repeat split; auto).
+  - specialize (RE eq_refl). congruence.
+Qed.
+
+Arguments expect_readable : simpl never.
+
+(** one iteration of the readiness loop of a session in the expect state *)
+Lemma ready_loop_expect_step fuel e x :
+  se e = SExpect x -> rw (xint x) = false ->
+  rw (xev x) = false -> re (xev x) = false -> rh (xev x) = false ->
+  ready_loop (S fuel) e =
+    if rr (xint x) && rr (xev x) then
+      match expect_readable x (fsock e) with
+      | (x', f, Continue) => ready_loop fuel (e_all e (SExpect x') f (bsock e))
+      | (x', f, r) => (e_all e (SExpect x') f (bsock e), Some r)
+      end
+    else (e, Some Continue).
+Proof.
+  intros SE IW EW EE EH. cbn [ready_loop]. rewrite SE. cbn [fr_int fr_ev br_int br_ev].
+  destruct (xint x) as [ir iw ie ih]. destruct (xev x) as [er ew ee eh]. cbn [rr rw re rh] in *. subst.
+  destruct ir, er, ie, ih; cbn; try reflexivity;
+    unfold h_readable; rewrite SE;
+    destruct (expect_readable x (fsock e)) as [[x' f] r]; destruct r; cbn; reflexivity.
+Qed.
+
+Section Split.
+  Variables (hb : list N) (h : header) (pl : list N).
+  Hypothesis HP : parse_v2 hb = POk [] h.
+  Hypothesis HL : length hb <= window_unix.
+
+  (** the expect state in the middle of a well-formed stream, header still incomplete *)
+  Definition xvalid (x : expect) (s : sock) (fut : list N) : Prop :=
+    xbuf x ++ inq s ++ fut = hb ++ pl /\ length (xbuf x) < length hb /\
+    length (xbuf x) < stage_len (xstage x) /\ ieof s = false /\ ierr s = false /\
+    xint x = mkrd true false true true /\
+    rw (xev x) = false /\ re (xev x) = false /\ rh (xev x) = false.
+
+  (** ... and at the moment the header is complete *)
+  Definition xdone (x : expect) (s : sock) (fut : list N) : Prop :=
+    xbuf x ++ inq s ++ fut = hb ++ pl /\ xaddr x = Some (haddr h) /\
+    length hb <= length (xbuf x) /\ length (xbuf x) <= window_unix /\
+    parse_v2 (xbuf x) = POk (skipn (length hb) (xbuf x)) h.
+
+  Definition same_rest (e e' : env) : Prop :=
+    bsock e' = bsock e /\ bsize e' = bsize e /\ back_avail e' = back_avail e /\ hdr0 e' = hdr0 e.
+
+  Lemma ready_loop_expect_valid fuel : forall e x fut,
+    se e = SExpect x -> xvalid x (fsock e) fut -> stage_rank (xstage x) + 2 <= fuel ->
+    exists e' x',
+      se e' = SExpect x' /\ same_rest e e' /\
+      ((ready_loop fuel e = (e', Some Continue) /\ xvalid x' (fsock e') fut /\
+        (rr (xev x) = true -> inq (fsock e') = [])) \/
+       (ready_loop fuel e = (e', Some Upgrade) /\ xdone x' (fsock e') fut)).
+  Proof.
+    induction fuel as [|fuel IH]; intros e x fut SE V F; [lia|].
+    destruct V as (ST & LH & LS & NE & NR & XI & EW & EE & EH).
+    rewrite (ready_loop_expect_step fuel e x SE) by (try assumption; rewrite XI; reflexivity).
+    rewrite XI. cbn [rr andb].
+    destruct (rr (xev x)) eqn:ER.
+    2:{ exists e, x. split; [exact SE|]. split; [repeat split|]. left. split; [reflexivity|].
+        split; [repeat split; assumption|discriminate]. }
+    destruct (expect_readable x (fsock e)) as [[x1 f1] r1] eqn:R.
+    pose proof (expect_step_valid hb h pl fut x (fsock e) x1 f1 r1 HP HL ST NE NR (Nat.lt_le_incl _ _ LS) R) as (NC & UP & CO).
+    pose proof (expect_readable_spec x (fsock e) x1 f1 r1 R (Nat.lt_le_incl _ _ LS)) as (bs & B1 & C1 & L1 & _ & _).
+    assert (ST1 : xbuf x1 ++ inq f1 ++ fut = hb ++ pl).
+    { rewrite B1, <- app_assoc, (app_assoc bs), C1. exact ST. }
+    destruct r1.
+    - (* Continue *)
+      specialize (CO eq_refl).
+      assert (LU : length (xbuf x1) < window_unix) by lia.
+      pose proof (expect_readable_valid_continue x (fsock e) x1 f1 R NE NR LS LU)
+        as (bs' & _ & _ & I1 & NE1 & NR1 & _ & K).
+      set (e1 := e_all e (SExpect x1) f1 (bsock e)).
+      assert (SE1 : se e1 = SExpect x1) by reflexivity.
+      assert (SR1 : same_rest e e1) by (repeat split).
+      destruct K as [(EMP & EV1 & S1 & LS1)|(EV1 & RK & LS1)].
+      + (* the socket ran dry: the next iteration finds no readable event *)
+        assert (V1 : xvalid x1 (fsock e1) fut).
+        { unfold e1; cbn [fsock e_all]. split; [exact ST1|]. split; [exact CO|].
+          split; [rewrite S1; exact LS1|]. split; [exact NE1|]. split; [exact NR1|].
+          split; [rewrite I1; exact XI|]. rewrite EV1. cbn [rw re rh set_r]. repeat split; assumption. }
+        destruct fuel as [|fuel']; [destruct (xstage x); cbn in F; lia|].
+        rewrite (ready_loop_expect_step fuel' e1 x1 SE1);
+          try (rewrite I1, XI; reflexivity); try (rewrite EV1; assumption).
+        rewrite EV1. cbn [rr set_r]. rewrite andb_false_r.
+        exists e1, x1. split; [exact SE1|]. split; [exact SR1|]. left. split; [reflexivity|].
+        split; [exact V1|intros _; exact EMP].
+      + (* the window was filled: next stage *)
+        assert (V1 : xvalid x1 (fsock e1) fut).
+        { unfold e1; cbn [fsock e_all]. split; [exact ST1|]. split; [exact CO|].
+          split; [exact LS1|]. split; [exact NE1|]. split; [exact NR1|].
+          split; [rewrite I1; exact XI|]. rewrite EV1. repeat split; assumption. }
+        destruct (IH e1 x1 fut SE1 V1 ltac:(lia)) as (e' & x' & SE' & SR' & K').
+        exists e', x'. split; [exact SE'|]. split.
+        { destruct SR1 as (a1 & a2 & a3 & a4). destruct SR' as (b1 & b2 & b3 & b4).
+          repeat split; congruence. }
+        destruct K' as [(K1 & K2 & K3)|K']; [left|right; exact K'].
+        split; [exact K1|]. split; [exact K2|]. intros _. apply K3. rewrite EV1. exact ER.
+    - exfalso. apply NC. reflexivity.
+    - (* Upgrade *)
+      destruct (UP eq_refl) as (A & LB & PV).
+      exists (e_all e (SExpect x1) f1 (bsock e)), x1. split; [reflexivity|]. split; [repeat split|].
+      right. split; [reflexivity|]. cbn [fsock e_all].
+      pose proof (stage_len_le (xstage x1)).
+      repeat split; try assumption. lia.
+  Qed.
+
+  (** a chunk arrives on the client socket and the poll reports READABLE *)
+  Definition arrive (e : env) (c : list N) : env :=
+    mkenv (set_fr_ev (se e) (set_r (fr_ev (se e)) true))
+          (mksock (inq (fsock e) ++ c) (ieof (fsock e)) (ierr (fsock e)) (wcap (fsock e)) (wclosed (fsock e)) (outq (fsock e)))
+          (bsock e) (bsize e) (back_avail e) (hdr0 e).
+
+  (** deliver the chunks one by one, running the session's readiness pass after each, until it stops continuing *)
+  Fixpoint feed (e : env) (chunks : list (list N)) : env * option result * list (list N) :=
+    match chunks with
+    | [] => (e, Some Continue, [])
+    | c :: cs =>
+      match ready_inner (arrive e c) with
+      | (e', Some Continue) => feed e' cs
+      | (e', r) => (e', r, cs)
+      end
+    end.
+
+  Lemma feed_valid : forall chunks e x,
+    se e = SExpect x -> xvalid x (fsock e) (concat chunks) -> inq (fsock e) = [] ->
+    exists e' x' rest r,
+      feed e chunks = (e', r, rest) /\ se e' = SExpect x' /\ bsize e' = bsize e /\ back_avail e' = back_avail e /\
+      ((r = Some Continue /\ rest = [] /\ xvalid x' (fsock e') [] /\ inq (fsock e') = []) \/
+       (r = Some Upgrade /\ xdone x' (fsock e') (concat rest))).
+  Proof.
+    induction chunks as [|c cs IH]; intros e x SE V EMP0.
+    - exists e, x, [], (Some Continue). cbn [feed]. repeat split; auto.
+    - cbn [feed].
+      set (ea := arrive e c).
+      set (xa := mkx (xbuf x) (xstage x) (xint x) (set_r (xev x) true) (xaddr x)).
+      assert (SEa : se ea = SExpect xa) by (unfold ea, arrive; cbn [se]; rewrite SE; reflexivity).
+      destruct V as (ST & LH & LS & NE & NR & XI & EW & EE & EH).
+      assert (Va : xvalid xa (fsock ea) (concat cs)).
+      { unfold ea, arrive, xa. cbn [fsock inq ieof ierr xbuf xstage xint xev rw re rh set_r].
+        unfold xvalid. cbn [fsock inq ieof ierr xbuf xstage xint xev rw re rh set_r].
+        split; [cbn [concat] in ST; rewrite <- ST; f_equal; symmetry; apply app_assoc|].
+        repeat split; assumption. }
+      assert (RI : ready_inner ea = ready_loop ready_fuel ea).
+      { unfold ready_inner. rewrite SEa. cbn [fr_ev xev xa set_r rh]. rewrite EH. reflexivity. }
+      rewrite RI.
+      destruct (ready_loop_expect_valid ready_fuel ea xa (concat cs) SEa Va
+                  ltac:(unfold ready_fuel; destruct (xstage xa); cbn; lia))
+        as (e1 & x1 & SE1 & (_ & BS & BA & _) & [(R & V1 & E1)|[R D1]]).
+      + rewrite R.
+        assert (EMP1 : inq (fsock e1) = []) by (apply E1; reflexivity).
+        destruct (IH e1 x1 SE1 V1 EMP1) as (e' & x' & rest & r & F & SE' & BS' & BA' & K).
+        exists e', x', rest, r. split; [exact F|]. split; [exact SE'|].
+        split; [rewrite BS', BS; reflexivity|]. split; [rewrite BA', BA; reflexivity|exact K].
+      + rewrite R. exists e1, x1, cs, (Some Upgrade). split; [reflexivity|]. split; [exact SE1|].
+        split; [exact BS|]. split; [exact BA|]. right. split; [reflexivity|exact D1].
+  Qed.
+End Split.
+
+Definition expect_no_loss_lemma := expect_handoff.
